@@ -130,6 +130,9 @@ class Universe:
             self.opaque_attrs.setdefault(c, {}).update(d)
         self.recfuns.update(getattr(mod, "RECFUN", {}))
         self.class_alias.update(getattr(mod, "CLASS_ALIAS", {}))
+        self.__dict__.setdefault("str_classes", {}).update(getattr(mod, "STR_CLASSES", {}))
+        for c, d in getattr(mod, "CLASS_ATTRS", {}).items():
+            self.__dict__.setdefault("class_attrs", {}).setdefault(c, {}).update(d)
         self.__dict__.setdefault("closed_hierarchies", set()).update(getattr(mod, "CLOSED_HIERARCHIES", []))
         for c, why in getattr(mod, "HIERARCHY_OUT_OF_SCOPE", {}).items():
             self.__dict__.setdefault("hierarchy_out_of_scope", {})[c] = why
